@@ -144,9 +144,10 @@ CHECKS = {
             "through __int__/__float__ only. The converted value is decided by SMT over all 64-bit patterns from the live bindings (nat.__int__ identity, convert_u/convert_s = round-to-nearest).",
             TB + "; recording stand-in for the checker context; lib/e3_num.py tables", "DESIGN.md §5 C16", "E1+E3"),
     "C12": ("model_checking",
-            "bounded-exhaustive term grammar through the real unify; z3 theory of finite trees (ADTs) decides existence, soundness and most-generality per case",
+            "bounded-exhaustive term grammar through the real unify; z3 theory of finite trees (ADTs) decides existence, soundness and most-generality per case; generic calls through the real check() vs z3 existence of an instantiation",
             "Every (term, term, prior substitution) of a grammar of real Type objects (262 terms quick / 1870 thorough, 8 consistent prior substitutions) runs through the real unify; the statement's own quantifiers "
-            "('some assignment', 'most general') range over infinitely many assignments and are decided by three z3 ADT queries per case; termination is observed (recursion limit).",
+            "('some assignment', 'most general') range over infinitely many assignments and are decided by three z3 ADT queries per case; termination is observed (recursion limit). "
+            "Stage 2: generic calls (9 parameter shapes over T, U x 14 argument expressions, 1 and 2 parameters) go through the real check(); accepted iff z3 finds an instantiation making the arguments fit.",
             "z3 ADT theory as decision procedure for unifiability; the encoding of Type objects into the datatype; import shim", "DESIGN.md §5 C12", "E1"),
 }
 
